@@ -533,8 +533,30 @@ class Syntax:
             yield element
 
     def render(self, obj):
-        """Return this syntax formatted for the given object."""
-        return "".join(self._get_repr(e, obj) for e in self.syntax)
+        """Return this syntax formatted for the given object.
+
+        When two adjacent syntax elements would be glued together into a
+        single word (for example a mnemonic directly followed by a register
+        operand), they are separated by a space, such that the rendered text
+        can be tokenized again by the assembler.
+        """
+        parts = []
+        for element in self.syntax:
+            part = self._get_repr(element, obj)
+            if (
+                parts
+                and part
+                and parts[-1]
+                and self._is_word_char(parts[-1][-1])
+                and self._is_word_char(part[0])
+            ):
+                parts.append(" ")
+            parts.append(part)
+        return "".join(parts)
+
+    @staticmethod
+    def _is_word_char(c):
+        return c.isalnum() or c == "_"
 
     @staticmethod
     def _get_repr(syntax_element, obj):
